@@ -627,7 +627,7 @@ def c04(run, vc):
     ok = _multi_stage(run, vc, tables, [
         ("MC_SigNet", "MC_SigNet_single_%s.cfg" % tier, lambda v: (v["act"] == "Verify" and (v["idpk"] or v["idsig"])) or (v["act"] == "Sign" and v["k"] == 0), "single verification with identity key / signature (alone and together); signing with the zero key"),
         ("MC_SigNet", "MC_SigNet_pop_%s.cfg" % tier, lambda v: (v["act"] in ("PopVerify", "Verify") and (v["idpk"] or v["idsig"])) or (v["act"] == "PopProve" and v["k"] == 0), "proof of possession with identity operands; zero key"),
-        ("MC_SigNet", "MC_SigNet_agg_%s.cfg" % tier, lambda v: v["act"] == "AggVerify" and (v["how"] == "idkey" or v["idsig"]), "identity key at every position of an aggregate list; identity aggregate"),
+        ("MC_SigNet", "MC_SigNet_agg_%s.cfg" % tier, lambda v: v["act"] == "AggVerify" and (v["how"] in ("idkey", "addid") or v["idsig"]), "identity key at every position of an aggregate list; identity aggregate"),
         ("MC_SigNet", "MC_SigNet_multi_%s.cfg" % tier, lambda v: v["act"] == "MultiVerify" and (v["idpk"] or v["idsig"]), "accumulated key / multi-signature equal to the identity"),
         ("MC_Pok", "MC_Pok_%s.cfg" % tier, lambda v: v["pert"] in ("u_id", "v_id", "uv_id", "y_zero", "pk_id", "forge_v_id") or v.get("y") == "zero", "identity commitment / response / key, zero challenge, forged identity response"),
         ("MC_SignCrypt", "MC_SignCrypt_%s.cfg" % tier, lambda v: (v["act"] in ("IsValid", "Decrypt") and v["idpt"]) or (v["act"] == "ShareVerify" and v["idsub"] != "none"), "signcryption header identities (alone and jointly); identity decryption share / key share / W"),
